@@ -9,7 +9,9 @@ ASAN = ("abort_on_error=1:detect_leaks=1:allocator_may_return_null=1:handle_abor
 
 RULE = ("one case = one two-endpoint session over a random stack (loopback TCP | AF_UNIX socketpair | bufferevent_pair; "
         "optional OpenSSL or mbedTLS layer on the fd or over the base bufferevent; 0-3 stacked filters: library null filter, "
-        "pass-through, chunk-limiting, stateful XOR, length-framing) with random BEV_OPT_DEFER/UNLOCK_CALLBACKS/THREADSAFE per layer, "
+        "pass-through, chunk-limiting, stateful XOR, length-framing, and in the writer's stack a hold-back output filter that keeps a "
+        "tail < k bytes in its own context until it is called with BEV_FLUSH/BEV_FINISHED, the application flushing before it "
+        "drains or ends the stream) with random BEV_OPT_DEFER/UNLOCK_CALLBACKS/THREADSAFE per layer, "
         "writer emitting 64-bit counter blocks in random chunks through four write APIs, random enable/disable toggling, "
         "BEV_NORMAL/BEV_FLUSH flushes, reads in/outside callbacks through four read APIs, optional short-I/O/EAGAIN/EINTR and "
         "reset injection, then a random shutdown (shutdown(SHUT_WR), TLS close_notify, free, BEV_FINISHED flush; drained or abrupt); "
@@ -23,6 +25,8 @@ REQUIRED = ["cases", "late_tail_written_while_reader_paused", "sessions_with_del
             "tls_openssl_socket", "tls_openssl_over_sockbev", "tls_openssl_over_pair",
             "tls_mbedtls_socket", "tls_mbedtls_over_sockbev", "tls_mbedtls_over_pair",
             "filters_1", "filters_2", "filters_3", "filter_null", "filter_pass", "filter_chunk", "filter_xor", "filter_framing",
+            "filter_hold", "hold_flush_checked_with_tail_and_empty_output", "hold_tail_emitted_on_flush", "hold_flush_with_empty_output",
+            "hold_app_flush_before_end", "liveness_pending_is_held_tail",
             "opt_defer_callbacks", "opt_unlock_callbacks", "opt_threadsafe",
             "toggle_read", "toggle_write", "flush_flush", "flush_finished", "faults_injected",
             "shutwr_drained", "close_notify", "free_drained", "finished_flush", "free_pending", "shutwr_pending",
@@ -32,7 +36,9 @@ REG = dict(category="exploration",
            text="Random bounded sessions over every bufferevent transport kind are run under ASan/UBSan with live library assertions; "
                 "every byte the reading application removes is compared with the counter stream the writer produced (prefix at all "
                 "times, equality at EOF), EOF/error events are checked to come after the last byte and at most once, and at every "
-                "quiescent point undelivered bytes must be explained by a disabled end, a watermark or a reported error.",
+                "quiescent point undelivered bytes must be explained by a disabled end, a watermark, a reported error or a tail "
+                "that a stateful output filter holds and no flush has been asked for since; a BEV_FLUSH/BEV_FINISHED flush must "
+                "leave such a filter empty.",
            note="Sampled histories, single-threaded (THREADSAFE exercises the locking paths through a lock ledger, no second thread); "
                 "TCP loopback timing is not reproducible bit-for-bit so a replay of a TCP case may need several attempts; trusts "
                 "the kernel, OpenSSL and mbedTLS.  TLS layers directly on an fd do their I/O inside libssl/libmbedtls, where no "
